@@ -30,4 +30,4 @@ def run(run, model):
     run.minimum("C12.immutable-values", 6, "default + five functions using the context variable")
     run.minimum("C12.no-other-state", 20)
     run.minimum("C12.ctxvar-only", 5)
-    run.minimum("C12.readable-everywhere", 5, "one read per wrapper kind")
+    run.minimum("C12.readable-everywhere", 2, "the checker wrappers and the invariant wrappers read the variable (possibly through one bound accessor each)")
